@@ -6,6 +6,7 @@
    (lib/gen_tie.py, family "glue"); Proofs/GlueBridge.v proves the lemmas. Theorem names are <property>_source_<target>;
    lib/gen_tie.py attributes them to the properties by that name. Statements only. [G] is the generated module. *)
 From Coq Require Import List NArith ZArith Bool.
+From Coq Require Strings.String.
 From NextestModel Require Import Proofs.GlueBridge.
 Import ListNotations.
 Open Scope N_scope.
@@ -252,3 +253,65 @@ Example C06_source_override_loop_body_witness :
   first_wins false (@None N) (Some 0) = Some 0 /\ first_wins false (Some 5) (Some 0) = Some 5 /\
   first_wins true (@None N) (Some 0) = None.
 Proof. repeat split. Qed.
+
+(* ---- signal_str (C03) *)
+
+(* C03 "an attempt's reported result reflects what the test process actually did": when a test is killed by signal n,
+   nextest prints SIGxxx where xxx = signal_str(n), and the bare number when signal_str gives nothing. Every name the
+   source's table gives is the name Linux (x86_64 numbering, Model/SignalNames.v) gives to that number -- for every n,
+   named or not. Naming 10 BUS and 12 SYS (they are USR1 and USR2 there; BUS is 7, SYS 31) falsifies it. *)
+Theorem C03_source_signal_str :
+  forall n s, G.signal_str n = Some s -> MSig.linux_signal_name n = Some s.
+Proof. exact gen_signal_str_is_model. Qed.
+Print Assumptions C03_source_signal_str.
+
+(* the reference table itself: exactly the standard signals 1..31, pairwise distinct names *)
+Theorem C03_signal_table_defined :
+  forall n, (exists s, MSig.linux_signal_name n = Some s) <-> (1 <= n <= 31)%Z.
+Proof. exact NextestModel.Proofs.SignalNames.linux_signal_name_defined. Qed.
+Print Assumptions C03_signal_table_defined.
+
+Theorem C03_signal_table_names_distinct : NoDup (map snd MSig.linux_signal_table).
+Proof. exact NextestModel.Proofs.SignalNames.linux_signal_names_distinct. Qed.
+Print Assumptions C03_signal_table_names_distinct.
+
+Example C03_source_signal_str_witness :
+  G.signal_str 9 = MSig.linux_signal_name 9 /\ G.signal_str 9 <> None /\ G.signal_str 10 = None.
+Proof. vm_compute. repeat split. discriminate. Qed.
+
+(* ---- the displayer's choice of the output setting (C06) *)
+
+(* C06: the value forced on the command line / through the environment governs over the per-test resolved one at BOTH
+   places the displayer decides whether to show a test's output: a finished test ([EkFinished]: success-output iff the
+   last attempt passed) and a failed attempt that will be retried ([EkAttemptWillRetry]: failure-output). The receiver
+   of `.is_immediate()` in the TestAttemptFailedWillRetry arm and the `let test_output_display` of the TestFinished arm,
+   regenerated from the source, are [MDs.setting_for]. Reading the per-test value directly in the retry arm falsifies it. *)
+Theorem C06_source_display_setting :
+  forall r u s f,
+    display_to_model (G.display_finished_setting (result_of_junit r) u s f) =
+    MDs.setting_for (MDs.EkFinished (MJ.jis_success r))
+      (option_map display_to_model (G.UnitOutputReporter_force_success_output u))
+      (option_map display_to_model (G.UnitOutputReporter_force_failure_output u))
+      (display_to_model s) (display_to_model f) /\
+    display_to_model (G.display_retry_setting u f) =
+    MDs.setting_for MDs.EkAttemptWillRetry
+      (option_map display_to_model (G.UnitOutputReporter_force_success_output u))
+      (option_map display_to_model (G.UnitOutputReporter_force_failure_output u))
+      (display_to_model s) (display_to_model f) /\
+    (forall d, G.TestOutputDisplay_is_immediate d = MDs.is_immediate (display_to_model d)).
+Proof.
+  intros; split; [apply gen_display_finished_setting_is_model | split; [apply gen_display_retry_setting_is_model |
+                  apply gen_display_is_immediate_is_model]].
+Qed.
+Print Assumptions C06_source_display_setting.
+
+(* the model's fact, from the property text: a forced value wins for every event kind *)
+Theorem C06_forced_display_setting_wins :
+  forall k fs ff s f v,
+    (if MDs.governs_success k then fs else ff) = Some v -> MDs.setting_for k fs ff s f = v.
+Proof. exact PDs.forced_wins. Qed.
+Print Assumptions C06_forced_display_setting_wins.
+
+Example C06_source_display_setting_witness :
+  MDs.setting_for MDs.EkAttemptWillRetry None (Some MDs.DNever) MDs.DImmediate MDs.DImmediate = MDs.DNever.
+Proof. reflexivity. Qed.
